@@ -28,7 +28,9 @@
 (*    Hermitian / Projector as the observable of expval / var, with        *)
 (*    complex array data; pairs d / conj(d) (imaginary parts differ only), *)
 (*    d / -conj(d) (real parts differ only), d / transpose(d), d / d,      *)
-(*    d / next lattice angle;                                              *)
+(*    d / next lattice angle; QubitUnitary and Hermitian also with a LARGE *)
+(*    array: kron(d, 1) over PadN further wires that nothing else touches  *)
+(*    (32 x 32 entries; on the three measured wires it acts as d);         *)
 (*  * DERIVED tapes: the second tape of the group is obtained from the     *)
 (*    first by the tape API (copy(shots= / trainable_params= / operations= *)
 (*    / measurements=), copy(), copy(copy_operations), bind_new_parameters)*)
@@ -86,7 +88,8 @@ AllTr(np) == [j \in 1..(np + 1) |-> j - 1]
 \*   ot/od: "" or the observable of expval/var on wire 1 ("Hermitian": od a 2x2 matrix, "Projector": od a 2x1 vector)
 \*   zero = TRUE: the tape does not start with Prefix (it is evaluated from |000>)
 \*   dv/dmemo: how the driver must obtain the tape object from tape 1 of the group ("" = construct it)
-TapeOps(ops, tr, sh) == [ops |-> ops, tr |-> tr, shots |-> sh, mt |-> "", ot |-> "", od |-> <<>>, zero |-> FALSE, dv |-> "", dmemo |-> ""]
+\*   opad: the observable's array is kron(od, 1) over opad further wires
+TapeOps(ops, tr, sh) == [ops |-> ops, tr |-> tr, shots |-> sh, mt |-> "", ot |-> "", od |-> <<>>, opad |-> 0, zero |-> FALSE, dv |-> "", dmemo |-> ""]
 TapeOf(t, p, tr, sh) == TapeOps(Append(Prefix, G(t.g, t.w, p, t.x, t.mods)), tr, sh)
 Plain(t, p) == TapeOf(t, p, AllTr(t.np), <<>>)
 AllMs == <<"state", "expval", "var", "probs", "dm">>
@@ -128,21 +131,28 @@ DatD(a) == Mx(0, << <<Em(a), O>>, <<O, P(a)>> >>)
 DatV(a) == Norm(Mx(1, << <<Sqrt2>>, <<Mul(Sqrt2, P(a))>> >>))
 DatH(a) == Mx(0, << <<Two, Em(a)>>, <<E(a), mOne>> >>)
 DatB(a) == Norm(Mx(2, MScale(Sqrt2, Mx(0, MRot(a, 1, 2).e)).e))
-DataKinds == {<<"QubitUnitary", "op">>, <<"DiagonalQubitUnitary", "op">>, <<"BlockEncode", "op">>, <<"StatePrep", "prep">>,
-              <<"Hermitian", "obs">>, <<"Projector", "obs">>}
+\* <<operator, where it sits in the tape, number of padding wires>>.  Padded: the array handed to the operator is kron(d, 1_{2^PadN})
+\* on wire 1 and PadN further wires; no other operation or measurement touches those wires, so on the register of the model
+\* the operator is d on wire 1 (x = <<PadN>> records the padding; the key contains the whole array, i.e. d and the padding)
+PadN == 4
+DataKindsBig == {<<"QubitUnitary", "op", PadN>>, <<"Hermitian", "obs", PadN>>}
+DataKinds == {<<"QubitUnitary", "op", 0>>, <<"DiagonalQubitUnitary", "op", 0>>, <<"BlockEncode", "op", 0>>, <<"StatePrep", "prep", 0>>,
+              <<"Hermitian", "obs", 0>>, <<"Projector", "obs", 0>>} \cup DataKindsBig
 DataOf(dk, a) == CASE dk = "QubitUnitary" -> DatU(a) [] dk = "DiagonalQubitUnitary" -> DatD(a) [] dk = "BlockEncode" -> DatB(a)
                    [] dk \in {"StatePrep", "Projector"} -> DatV(a) [] dk = "Hermitian" -> DatH(a)
 DataMuts(dk) == {"conj", "negconj", "copy", "step"} \cup (IF dk \in {"QubitUnitary", "BlockEncode", "Hermitian"} THEN {"tr"} ELSE {})
 MutData(dk, a, mu) == CASE mu = "conj" -> Norm(MConj(DataOf(dk, a))) [] mu = "negconj" -> MNeg(MConj(DataOf(dk, a)))
                         [] mu = "tr" -> Norm(MTr(DataOf(dk, a))) [] mu = "copy" -> DataOf(dk, a) [] mu = "step" -> DataOf(dk, a + 1)
-GD(gn, w, m) == [g |-> gn, w |-> w, p |-> <<>>, x |-> <<>>, m |-> m, mods |-> <<>>]
+GD(gn, w, m, pad) == [g |-> gn, w |-> w, p |-> <<>>, x |-> IF pad > 0 THEN <<pad>> ELSE <<>>, m |-> m, mods |-> <<>>]
 RXop(a) == G("RX", <<1>>, <<a>>, <<>>, <<>>)
 \* the tape of one data operator: "op" after the prefix; "prep" first, then H H RX; "obs" measured after prefix + RX
 DataTape(d, m) ==
-  CASE d[2] = "op"   -> TapeOps(Append(Prefix, GD(d[1], IF d[1] = "BlockEncode" THEN <<2, 1>> ELSE <<1>>, m)), <<0>>, <<>>)
-    [] d[2] = "prep" -> [TapeOps(<<GD(d[1], <<1>>, m), Prefix[2], Prefix[3], RXop(A0)>>, <<0>>, <<>>) EXCEPT !.zero = TRUE]
-    [] d[2] = "obs"  -> [TapeOps(Append(Prefix, RXop(A0)), <<0, 1>>, <<>>) EXCEPT !.ot = d[1], !.od = m]
-DataGroups == UNION {{GrpW("data-" \o mu, 0, d[1], IF d[2] = "obs" THEN <<"expval", "var">> ELSE AllMs,
+  CASE d[2] = "op"   -> TapeOps(Append(Prefix, GD(d[1], IF d[1] = "BlockEncode" THEN <<2, 1>> ELSE <<1>>, m, d[3])), <<0>>, <<>>)
+    [] d[2] = "prep" -> [TapeOps(<<GD(d[1], <<1>>, m, 0), Prefix[2], Prefix[3], RXop(A0)>>, <<0>>, <<>>) EXCEPT !.zero = TRUE]
+    [] d[2] = "obs"  -> [TapeOps(Append(Prefix, RXop(A0)), <<0, 1>>, <<>>) EXCEPT !.ot = d[1], !.od = m, !.opad = d[3]]
+\* state / density matrix of a padded tape would include the padding wires: measured with expval / var / probs only
+DataGroups == UNION {{GrpW("data-" \o mu, 0, IF d[3] > 0 THEN d[1] \o "+pad" ELSE d[1],
+                           IF d[2] = "obs" THEN <<"expval", "var">> ELSE IF d[3] > 0 THEN <<"expval", "var", "probs">> ELSE AllMs,
                            <<DataTape(d, DataOf(d[1], a)), DataTape(d, MutData(d[1], a, mu))>>) : mu \in DataMuts(d[1]), a \in Angles}
                        : d \in DataKinds}
 
@@ -207,7 +217,7 @@ EndTape == /\ ti <= Len(grp.tapes) /\ pos > Len(grp.tapes[ti].ops)
 \* ------------------------------------------------------------ classes and the verdict on the model
 NTp == Len(grp.tapes)
 Analytic(i) == grp.tapes[i].shots = <<>>
-KTape(i) == [ops |-> grp.tapes[i].ops, meas |-> <<[t |-> IF grp.tapes[i].mt = "" THEN "m" ELSE grp.tapes[i].mt, obs |-> <<grp.tapes[i].ot, grp.tapes[i].od>>, w |-> <<>>]>>,
+KTape(i) == [ops |-> grp.tapes[i].ops, meas |-> <<[t |-> IF grp.tapes[i].mt = "" THEN "m" ELSE grp.tapes[i].mt, obs |-> <<grp.tapes[i].ot, grp.tapes[i].od, grp.tapes[i].opad>>, w |-> <<>>]>>,
              tr |-> grp.tapes[i].tr, shots |-> grp.tapes[i].shots]
 \* the result of tape i when the group is instantiated with measurement type m
 Val(i, m) == LET mm == IF grp.tapes[i].mt = "" THEN m ELSE grp.tapes[i].mt IN
